@@ -101,7 +101,7 @@ def h_rpad(cls, dims, target, clip, deep):
         if res is None:
             obls.append(('a result is returned', z3.And(g, z3.Not(out.raised))))
         else:
-            obls += [(nm, z3.And(g, c)) for nm, c in compare(value(res), want)]
+            obls += [(nm, z3.And(g, c)) for nm, c in nodeh.compare_value(res, want)]
 
     def replay(model, ent):
         lc = model.eval(nc.lencontent, model_completion=True).as_signed_long()
@@ -187,7 +187,7 @@ def h_num(cls, dims, deep):
         if res is None:
             obls.append(('a result is returned', z3.And(g, z3.Not(out.raised))))
         else:
-            obls += [(nm, z3.And(g, c)) for nm, c in compare(value(res), want)]
+            obls += [(nm, z3.And(g, c)) for nm, c in nodeh.compare_value(res, want)]
 
     def replay(model, ent):
         lc = model.eval(nc.lencontent, model_completion=True).as_signed_long()
@@ -231,7 +231,7 @@ def h_localindex(cls, dims, deep):
         if res is None:
             obls.append(('a result is returned', z3.And(g, z3.Not(out.raised))))
         else:
-            obls += [(nm, z3.And(g, c)) for nm, c in compare(value(res), want)]
+            obls += [(nm, z3.And(g, c)) for nm, c in nodeh.compare_value(res, want)]
 
     def replay(model, ent):
         lc = model.eval(nc.lencontent, model_completion=True).as_signed_long()
@@ -823,7 +823,7 @@ def h_rpad_axis0(cls, dims, target, clip):
         if res is None:
             obls.append(('a result is returned', z3.And(g, z3.Not(out.raised))))
         else:
-            obls += [(nm, z3.And(g, c)) for nm, c in compare(value(res), want)]
+            obls += [(nm, z3.And(g, c)) for nm, c in nodeh.compare_value(res, want)]
 
     def replay(model, ent):
         lc = model.eval(nc.lencontent, model_completion=True).as_signed_long()
@@ -953,7 +953,7 @@ def h_option_below(cls, pattern, variant, meth):
         if res is None:
             obls.append(('a result is returned', z3.And(g, z3.Not(out.raised))))
         else:
-            obls += [(nm, z3.And(g, c)) for nm, c in compare(value(res), want)]
+            obls += [(nm, z3.And(g, c)) for nm, c in nodeh.compare_value(res, want)]
 
     def replay(model, ent):
         iv = which(model)
@@ -1019,7 +1019,7 @@ def h_broadcast_tooffsets(cls, dims, counts):
             if res is None:
                 obls.append(('a result is returned', z3.And(g, z3.Not(out.raised))))
             else:
-                obls += [(nm, z3.And(g, z3.Not(out.raised), c)) for nm, c in compare(value(res), want)]
+                obls += [(nm, z3.And(g, z3.Not(out.raised), c)) for nm, c in nodeh.compare_value(res, want)]
     def replay(model, ent):
         lc = model.eval(nc.lencontent, model_completion=True).as_signed_long()
         if lc > 200:
@@ -1129,7 +1129,7 @@ def h_sort_local(lens, arg):
             if res is None:
                 obls.append(('a result is returned', z3.And(g, z3.Not(out.raised))))
             else:
-                obls += [(nm, z3.And(g, c)) for nm, c in compare(value(res), want)]
+                obls += [(nm, z3.And(g, c)) for nm, c in nodeh.compare_value(res, want)]
 
     def replay(model, ent):
         ov = offsets_values(model, offs)
@@ -1226,7 +1226,7 @@ def h_simplify_option(outer_cls, outer_pat, inner_cls, inner_pat):
         if res is None:
             obls.append(('a result is returned', z3.And(g, z3.Not(out.raised))))
             continue
-        obls += [(nm, z3.And(g, c)) for nm, c in compare(value(res), want)]
+        obls += [(nm, z3.And(g, c)) for nm, c in nodeh.compare_value(res, want)]
         if res['cls'] == 'indexed':
             for i, t in enumerate(res.get('index', [])):
                 obls.append(('a non-option result has no negative index (entry %d)' % i, z3.And(g, t < 0)))
@@ -1350,7 +1350,7 @@ def h_indexed_mergemany(specs):
         if res is None:
             obls.append(('a result is returned', z3.And(g, z3.Not(out.raised))))
             continue
-        obls += [(nm, z3.And(g, c)) for nm, c in compare(value(res), want)]
+        obls += [(nm, z3.And(g, c)) for nm, c in nodeh.compare_value(res, want)]
         if res['cls'] == 'indexed':
             for i, t in enumerate(res.get('index', [])):
                 obls.append(('a non-option result has no negative index (entry %d)' % i, z3.And(g, t < 0)))
@@ -1446,7 +1446,7 @@ def h_convert(cls, dims, variant, meth, extra, kind):
             if res is None:
                 obls.append(('a result is returned', z3.And(g, z3.Not(out.raised))))
                 continue
-            obls += [(nm, z3.And(g, z3.Not(out.raised), c)) for nm, c in compare(value(res), want)]
+            obls += [(nm, z3.And(g, z3.Not(out.raised), c)) for nm, c in nodeh.compare_value(res, want)]
             if meth.startswith('19toListOffsetArray64') and extra == [1] and res['cls'] == 'listoffset' and res['offsets']:
                 obls.append(('the re-based offsets start at zero', z3.And(g, res['offsets'][0] != 0)))
     def replay(model, ent):
@@ -1574,7 +1574,7 @@ def h_record(nfields, length, op, arg):
             if nfields == 0:
                 obls.append(('the record count follows the operation', z3.And(g, res['length'] != len(want))) if res['cls'] == 'record' else ('a RecordArray is returned', g))
             else:
-                obls += [(nm, z3.And(g, z3.Not(out.raised), c)) for nm, c in compare(value(res), want)]
+                obls += [(nm, z3.And(g, z3.Not(out.raised), c)) for nm, c in nodeh.compare_value(res, want)]
             if res['cls'] == 'record':
                 obls.append(('the field names (none here) are kept', z3.And(g, z3.Not(nc.m.eng.is_null(res['recordlookup'])))))
     def replay(model, ent):
@@ -1669,7 +1669,7 @@ def h_carry(cls, dims, variant, n):
         if res is None:
             obls.append(('a result is returned', z3.And(g, z3.Not(out.raised))))
         else:
-            obls += [(nm, z3.And(g, z3.Not(out.raised), c)) for nm, c in compare(value(res), want)]
+            obls += [(nm, z3.And(g, z3.Not(out.raised), c)) for nm, c in nodeh.compare_value(res, want)]
 
     def replay(model, ent):
         cv = [model.eval(v, model_completion=True).as_signed_long() for v in iv]
@@ -1841,7 +1841,7 @@ def h_combinations(cls, dims, n, replacement):
         if res is None:
             obls.append(('a result is returned', z3.And(g, z3.Not(out.raised))))
         else:
-            obls += [(nm, z3.And(g, z3.Not(out.raised), c)) for nm, c in compare(value(res), want)]
+            obls += [(nm, z3.And(g, z3.Not(out.raised), c)) for nm, c in nodeh.compare_value(res, want)]
 
     def replay(model, ent):
         lc = model.eval(nc.lencontent, model_completion=True).as_signed_long()
@@ -2028,7 +2028,7 @@ def h_numpy_mergemany(shapes):
         if res is None:
             obls.append(('a result is returned', z3.And(g, z3.Not(out.raised))))
         else:
-            obls += [(nm, z3.And(g, z3.Not(out.raised), c)) for nm, c in compare(value(res), want)]
+            obls += [(nm, z3.And(g, z3.Not(out.raised), c)) for nm, c in nodeh.compare_value(res, want)]
 
     def replay(model, ent):
         prog, exp = '', []
@@ -2111,7 +2111,7 @@ def h_numpy_getitem(n, stride, offset, kind, k):
         okp = z3.And(inr, z3.Not(out.raised))
         for g, res in (nodeh.decode_cases(nc, out.mem, rcell) if rcell is not None else []):
             if res is not None:
-                obls += [(nm, z3.And(g, okp, c)) for nm, c in compare(value(res), want)]
+                obls += [(nm, z3.And(g, okp, c)) for nm, c in nodeh.compare_value(res, want)]
     else:
         obls = [('a range never raises', out.raised)]
         first, cnt = slice_sel(BV(n), a, b, k)
@@ -2270,7 +2270,7 @@ def h_union_simplify(outer_tags, inner_tags, mergeable_pairs):
         if res is None:
             obls.append(('a result is returned', z3.And(g, z3.Not(out.raised))))
             continue
-        obls += [(nm, z3.And(g, z3.Not(out.raised), c)) for nm, c in compare(value(res), want)]
+        obls += [(nm, z3.And(g, z3.Not(out.raised), c)) for nm, c in nodeh.compare_value(res, want)]
         if res['cls'] == 'union':
             for cd in res['contents']:
                 if cd['cls'] == 'union':
@@ -2437,7 +2437,7 @@ def h_option_getitem(cls, pattern, variant, headkind):
         if res is None:
             obls.append(('a result is returned', z3.And(g, z3.Not(out.raised))))
         else:
-            obls += [(nm, z3.And(g, z3.Not(out.raised), c)) for nm, c in compare(value(res), want)]
+            obls += [(nm, z3.And(g, z3.Not(out.raised), c)) for nm, c in nodeh.compare_value(res, want)]
     def replay(model, ent):
         ev = lambda t: model.eval(t, model_completion=True).as_signed_long()
         if cls in ('IndexedOptionArray64', 'IndexedArray64'):
@@ -2527,7 +2527,7 @@ def h_fillna(pattern, mergeable):
         if res is None:
             obls.append(('a result is returned', z3.And(g, z3.Not(out.raised))))
         else:
-            obls += [(nm, z3.And(g, z3.Not(out.raised), c)) for nm, c in compare(value(res), want)]
+            obls += [(nm, z3.And(g, z3.Not(out.raised), c)) for nm, c in nodeh.compare_value(res, want)]
 
     def replay(model, ent):
         iv = [model.eval(x, model_completion=True).as_signed_long() for x in idx]
@@ -2882,7 +2882,7 @@ def h_reverse_merge(cls, pat, L):
             if res is None:
                 obls.append(('a result is returned', z3.And(g, z3.Not(out.raised))))
                 continue
-            obls += [(nm, z3.And(g, c)) for nm, c in compare(value(res), want)]
+            obls += [(nm, z3.And(g, c)) for nm, c in nodeh.compare_value(res, want)]
             if res['cls'] == 'indexed':
                 for i, t in enumerate(res.get('index', [])):
                     obls.append(('a non-option result has no negative index (entry %d)' % i, z3.And(g, t < 0)))
@@ -3014,7 +3014,7 @@ def h_list_mergemany(specs):
         if res is None:
             obls.append(('a result is returned', z3.And(g, z3.Not(out.raised))))
             continue
-        obls += [(nm, z3.And(g, c)) for nm, c in compare(value(res), want)]
+        obls += [(nm, z3.And(g, c)) for nm, c in nodeh.compare_value(res, want)]
 
     def replay(model, ent):
         ev = lambda t: model.eval(t, model_completion=True).as_signed_long()
